@@ -326,6 +326,8 @@ func (r *Reader) readFiles(roots []string, opts walkerOpts, ignores []string) bo
 				if path != sep {
 					path += sep
 				}
+				// A followed symlink to a directory is listed as a directory
+				isDir = true
 			}
 			if ((opts.file && !isDir) || (opts.dir && isDir)) && r.pusher(stringBytes(path)) {
 				atomic.StoreInt32(&r.event, int32(EvtReadNew))
